@@ -742,13 +742,13 @@ class Evaluator:
         for op, rnode in zip(n.ops, n.comparators):
             right = self.eval(rnode)
             if isinstance(op, ast.Eq):
-                ok = left == right
+                ok = self._equal(left, right)
             elif isinstance(op, ast.NotEq):
-                ok = left != right
+                ok = not self._equal(left, right)
             elif isinstance(op, ast.In):
-                ok = left in right
+                ok = self._contains(right, left)
             elif isinstance(op, ast.NotIn):
-                ok = left not in right
+                ok = not self._contains(right, left)
             elif isinstance(op, ast.Is):
                 ok = left is right
             elif isinstance(op, ast.IsNot):
@@ -763,6 +763,19 @@ class Evaluator:
                 return False
             left = right
         return True
+
+    def _equal(self, a, b) -> bool:
+        """== with the value semantics of dataclasses (records of a dataclass of the repository compare field by field)."""
+        if isinstance(a, Obj) and isinstance(b, Obj) and a is not b and a._cls is not None and a._cls is b._cls and self.repo is not None:
+            fields = self.dataclass_fields(a._cls)
+            if fields and all(a.has(f) and b.has(f) for f in fields):
+                return all(self._equal(a.get(f), b.get(f)) for f in fields)
+        return a == b
+
+    def _contains(self, container, item) -> bool:
+        if isinstance(item, Obj) and isinstance(container, (list, tuple)) and item._cls is not None:
+            return any(self._equal(x, item) for x in container)
+        return item in container
 
     def _e_IfExp(self, n):
         return self.eval(n.body) if self.truth(self.eval(n.test), n.test) else self.eval(n.orelse)
@@ -1049,7 +1062,7 @@ class Evaluator:
             if f == "zip":
                 return [tuple(t) for t in zip(*[self._iterate(a, n) for a in args])]
             if f in ("abs", "min", "max", "sum"):
-                flat = args[0] if len(args) == 1 and not isinstance(args[0], int) else args
+                flat = args[0] if len(args) == 1 and not isinstance(args[0], (int, float)) else args
                 flat = self._iterate(flat, n) if not isinstance(flat, list) else flat
                 if not all(isinstance(x, int) for x in flat) and not (self.float_arith and all(isinstance(x, (int, float)) and not isinstance(x, bool) for x in flat)):
                     raise NotEvaluable(f"{f}() over non-integers")
